@@ -153,6 +153,11 @@ def _cases(draw):
                 n["c"]["save_to"] = g.name("p")
             meta["bad"].append("saveto-on-container")
             continue
+        if g.p("_", 0.06):
+            # a row that only declares a data source has no node or bind to carry a property
+            form["nodes"].append({"k": "q", "c": {"type": g.pick(["csv-external", "xml-external"]), "name": g.name("ext"), "save_to": g.name("p")}})
+            meta["bad"].append("saveto-on-external-instance")
+            continue
         if g.p("_", 0.06) and not any(n_["c"].get("type") == "audit" for n_, _ in model.walk(form["nodes"])):
             # the audit row is a survey row like any other for the save_to checks
             prop = g.name("p") if g.p("_", 0.4) else g.pick(list(BAD_PROP))
@@ -207,6 +212,8 @@ def _recompute_meta(form, meta):
                 m["bad"].append("no-entities-sheet")
             if n["k"] in ("g", "r"):
                 m["bad"].append("saveto-on-container")
+            elif n["c"].get("type", "").split(" ")[0] in ("csv-external", "xml-external"):
+                m["bad"].append("saveto-on-external-instance")
             elif n["c"].get("type") == "audit":
                 if n["c"]["save_to"] in BAD_PROP:
                     m["bad"].append("saveto:" + BAD_PROP[n["c"]["save_to"]])
